@@ -17,8 +17,9 @@ from .. import peer as P
 from ..profile import Profile
 
 
-def play_steps(sc, prof, hist, thr=None, interleave=None):
-    """Script steps: login (optionally set-compression), then the play history."""
+def play_steps(sc, prof, hist, thr=None, interleave=None, mid_comp=None):
+    """Script steps: login (optionally set-compression), then the play history.  mid_comp = (index, threshold): the
+    play-state set-compression packet (protocols up to 47) is sent in front of history item `index`."""
     steps = [('expect', 2)]
     if thr is not None:
         steps += [('send', prof.login_compress(thr)), ('compress', thr)]
@@ -26,6 +27,8 @@ def play_steps(sc, prof, hist, thr=None, interleave=None):
               ('call', lambda s: setattr(s, 'state', 'play'))]
     answers = 2
     for i, (kind, key, payload) in enumerate(hist):
+        if mid_comp is not None and i == mid_comp[0] and prof.c.get('play_compress') is not None:
+            steps += [('send', P.VI(prof.c['play_compress']) + P.VI(mid_comp[1])), ('compress', mid_comp[1])]
         steps.append(sc.tagged(payload, kind, key))
         if kind in ('ka', 'pl'):
             answers += 1
@@ -87,7 +90,7 @@ def client_obs(p, prof):
     return ['bad', [0]]
 
 
-def execute(version, hist_abs, seed, thr=None, interleave=None, policy=None, chunk='random'):
+def execute(version, hist_abs, seed, thr=None, interleave=None, policy=None, chunk='random', mid_comp=None):
     """Run one play session; returns (run, trace for TLC, prof)."""
     from minecraft.networking.packets import Packet
     prof = Profile(version)
@@ -98,7 +101,7 @@ def execute(version, hist_abs, seed, thr=None, interleave=None, policy=None, chu
 
     def factory(idx, sess):
         sc = TracingScript(run, prof, [])
-        sc.steps = play_steps(sc, prof, hist, thr, interleave)
+        sc.steps = play_steps(sc, prof, hist, thr, interleave, mid_comp)
         holder['sc'] = sc
         return sc
     run.serve(factory)
@@ -383,9 +386,13 @@ def run(chk):
             length = n_hist if (vi % 5 or quick) else 420
             hist = random_history(hr, length, prof_ge339)
             thr = [None, 0, 1, 64, 256][(vi + rep) % 5]
+            # up to protocol 47 compression may also be switched on (or its threshold changed) in the play state
+            mid = (hr.randrange(max(1, len(hist) - 1)), hr.choice([0, 1, 64])) if known.index(version) <= known.index(47) else None
+            if mid is not None and rep == 0:
+                thr = None
             run_, tr, prof = execute(version, hist, seed, thr=thr,
                                      interleave=(lambda j, hr=hr: hr.random() < 0.1),
-                                     policy=None)
+                                     policy=None, mid_comp=mid)
             chk.traces += 1
             chk.case(('long', version, rep))
             if run_.outcome != 'done':
